@@ -7,6 +7,7 @@ CONSTANTS
   Ambients = {"A"}
   Threads = {"main"}
   Resolution = "captured"
+  UnwindDrops = TRUE
 SPECIFICATION SwSpec
 INVARIANT SwTypeOK
 INVARIANT SwInv
